@@ -280,6 +280,8 @@ c = R.contract(
         "self._lines == old(self._lines) and seq(self._content) == old(seq(self._content)))" % (GATE, ANSI),
         "[C15] implies(%s and not %s and not (self._indent > 0 and with_indent), "
         "self._stream.g_last == fmt_remove(self._formatter, string) + ('\\n' if new_line else ''))" % (GATE, ANSI),
+        # C15: with ANSI support the text is recorded in the section (it is what later redraws re-print)
+        "[C15] implies(%s and %s, len(self._content) >= old(len(self._content)) + 2)" % (GATE, ANSI),
     ],
     modifies=STREAM_GHOST + ["self._lines", "items(self._content)"],
 )
@@ -414,13 +416,13 @@ R.abstractions[SEC_ADD := M_SEC + ":SectionOutput.add_content"] = [
 c = R.contracts[SEC_ADD]
 c.assumed = False
 c.requires = ["[C15] " + SEC, "[C15] self._terminal.g_width >= 1"]
-c.ensures = ["[C15] " + SEC, "[C15] len(self._content) >= old(len(self._content))"]
+c.ensures = ["[C15] " + SEC, "[C15] len(self._content) >= old(len(self._content)) + 2"]
 c.note = ""
 # a section write in ANSI mode calls add_content: the accounting invariant is a precondition of every public operation
 R.contracts[M_SEC + ":SectionOutput.write"].requires += ["[C15] " + SEC, "[C15] self._terminal.g_width >= 1"]
 R.loop(
     SEC_ADD, 0,
-    invariants=[SEC, "len(self._content) >= old(len(self._content))"],
+    invariants=[SEC, "len(self._content) >= old(len(self._content)) + 2 * _i"],
     modifies=["self._lines", "items(self._content)"],
     fingerprint="line_content in content.split",
 )
